@@ -13,6 +13,7 @@ CHECKS  = c01 c02 c03 c04 c05 c06 c07 c08 c09 c10 c11 c12 c13 c14 c15 c16 c17 c1
 # per-binary extra flags
 FLAGS_c16 = -O2 -Iharness/mpishim
 FLAGS_c14 = -O2 -lquadmath
+FLAGS_c11 = -lquadmath
 FLAGS_c05 = -O2
 FLAGS_c04 = -Iharness/mpishim
 FLAGS_c19 = -Iharness/mpishim
@@ -22,7 +23,7 @@ FLAGS_c15 = -fsanitize=address,undefined -fno-sanitize-recover=undefined -D_GLIB
 FLAGS_c17 = -fsanitize=address,undefined -fno-sanitize-recover=undefined -D_GLIBCXX_ASSERTIONS
 
 # checks built as three parts
-PARTED  = c02 c05 c06 c10
+PARTED  = c02 c05 c06 c10 c11
 EXISTING = $(foreach c,$(filter-out $(PARTED),$(CHECKS)),$(if $(wildcard checks/$(c).cpp),$(B)/$(c))) \
            $(foreach c,$(PARTED),$(if $(wildcard checks/$(c).cpp),$(B)/$(c).p0 $(B)/$(c).p1 $(B)/$(c).p2))
 
